@@ -33,6 +33,28 @@ Theorem C04_overlay : forall (K A : Type) (keqb : K -> K -> bool) (zero : A)
 Proof. exact @overlay_thm. Qed.
 Print Assumptions C04_overlay.
 
+(* The same for ANY caller, not only run(): any sequence of direct _update_schedules calls — at arbitrary,
+   not necessarily increasing iterations, with any queue state, rejected calls being caught and followed
+   by further calls — interleaved with _increase_width calls, on a simulator object that starts with a
+   zero matrix of any width: the matrix is the overlay (in call order, the last covering call wins) of
+   exactly the calls that returned normally (`acc`; by C04_outcomes these are the well-formed ones), and
+   every call produced one outcome.  In particular a simulator object that is driven repeatedly keeps no
+   other memory of earlier calls than this overlay. *)
+Theorem C04_overlay_calls : forall (K A : Type) (keqb : K -> K -> bool) (zero : A),
+  (forall a b, keqb a b = true <-> a = b) ->
+  forall (ids : list K) (w0 : nat) (calls : list (call K A)),
+  match run_calls keqb zero ids (zero_mat zero ids w0) calls [] [] with
+  | (m, acc, log) =>
+      length (rows m) = length ids /\
+      (forall s k, nth_error ids s = Some k ->
+         exists row, nth_error (rows m) s = Some row /\ length row = wid m /\
+           forall t, t < wid m -> nth t row zero = pilot_spec keqb zero acc k t) /\
+      (forall k t, wid m <= t -> pilot_spec keqb zero acc k t = zero) /\
+      length log = length calls
+  end.
+Proof. exact @calls_overlay_thm. Qed.
+Print Assumptions C04_overlay_calls.
+
 (* The pilots sent to the stations in period t (one value per station, in station order) are what
    the submissions made up to period t say, which is also what all submissions of the run say, and
    it is exactly column t of the recorded matrix ("applied" = "recorded"). *)
